@@ -5,8 +5,15 @@ package c14
 // transcription of this text: every mode prints the fingerprint fp() first,
 // then does what its kind says.  Keep the two in step.
 //
-// Globals that are only scratch (ln, s, t, q, i, j, k, z) are initialised
+// Globals that are only scratch (ln, s, t, q, i, j, k, z, r) are initialised
 // before use, so that they are not part of the state a later run observes.
+//
+// Standard input is read through one path per run, or through a second one
+// only after the first reached the end (gl_plain and gl_dash read everything
+// in BEGIN; gl_dashvar reads in END, after the main loop): how two half-read
+// scanners share buffered input is not part of what is compared.  Commands
+// (sys, pipe) are started in END, when the main loop has consumed the standard
+// input a child would otherwise inherit and compete for.
 const Program = `
 function emit(k, v) { printf "%s=%d:%s\n", k, length(v), v }
 
@@ -54,6 +61,9 @@ BEGIN {
     ln = ""
     r = (getline ln < rf); emit("rret", r); emit("rline", ln)
   }
+  else if (mode == "gl_plain") { while ((getline) > 0) emit("gl", $0) }
+  else if (mode == "gl_dash") { while ((getline < "-") > 0) emit("gd", $0) }
+  else if (mode == "exitbegin") exit 6
   else if (mode == "p_func") {
     emit("fact", fact(5))
     delete t; t["a"] = 1; t["b"] = 2; q = 0
@@ -75,6 +85,8 @@ mode == "csvhdr"   { emit("x", @"x") }
 mode == "p_io"     { emit("x", @"x") }
 mode == "openout"  { print $0 > wf }
 mode == "exit3"    { exit 3 }
+mode == "exit_enderr"    { exit 4 }
+mode == "exit_endcancel" { exit 5 }
 mode == "errfunc"  { s = 0; for (i = 0; i < 5; i++) s += boom(i) }
 mode == "errforin" { delete t; t["a"]; t["bb"]; for (k in t) z = 1 / (NF - NF) }
 mode == "cancel"   { j = 0; while (1) spin(j++) }
@@ -83,5 +95,10 @@ mode == "p_func"   { s += $1 }
 END {
   emit("endNR", NR)
   if (mode == "p_func") { emit("sum", s); exit }
+  if (mode == "gl_dashvar") { ln = ""; r = (getline ln < "-"); emit("gvr", r); emit("gv", ln) }
+  if (mode == "sys") { r = system("exit 3"); emit("sysrc", r) }
+  if (mode == "pipe") { ln = ""; r = ("echo hi" | getline ln); emit("pipe", r ":" ln); close("echo hi") }
+  if (mode == "exit_enderr" || mode == "exitbegin") z = 1 / (NR - NR)
+  if (mode == "exit_endcancel") { j = 0; while (1) spin(j++) }
 }
 `
